@@ -2,6 +2,7 @@ package main
 
 import (
 	"fmt"
+	"math/rand"
 	"reflect"
 	"sync"
 	"unsafe"
@@ -87,15 +88,46 @@ func c03BucketsOK() bool {
 	return c03BOK
 }
 
+// The bucket map is a skip list with a private random source.  In cases with an odd number of operations the source is
+// replaced (after the first Add has initialised it) by one that makes every new tower as tall as the list allows: 17
+// buckets then drive the list through all its levels, which 65536 buckets under the real source do once in a while.
+// Found by type: the struct field of RoaringBitmap that has a *rand.Rand field.  Where it cannot be found nothing is replaced.
+func c03TallTowers(r *setz.RoaringBitmap) {
+	defer func() { recover() }()
+	v := reflect.ValueOf(r).Elem()
+	for i := 0; i < v.NumField(); i++ {
+		f := v.Field(i)
+		if f.Kind() != reflect.Struct {
+			continue
+		}
+		for j := 0; j < f.NumField(); j++ {
+			g := f.Field(j)
+			if g.Type() == reflect.TypeOf((*rand.Rand)(nil)) && !g.IsNil() {
+				ones := make([]uint64, 4096)
+				for k := range ones {
+					ones[k] = 1
+				}
+				reflect.NewAt(g.Type(), unsafe.Pointer(g.UnsafeAddr())).Elem().Set(reflect.ValueOf(rand.New(&c02Script{ws: ones})))
+				return
+			}
+		}
+	}
+}
+
 func c03Impl(in []int64) []int64 {
 	var r setz.RoaringBitmap // the zero value must be usable
 	held := r.All()          // taken from the zero value
 	var out []int64
+	tall := (len(in)/c03W)%2 == 1
 	for i := 0; i+c03W-1 < len(in); i += c03W {
 		c, a, b, n, d, e := in[i], in[i+1], in[i+2], in[i+3], in[i+4], in[i+5]
 		switch c {
 		case 0:
 			out = append(out, B(r.Add(c03u32(a))))
+			if tall {
+				tall = false
+				c03TallTowers(&r)
+			}
 		case 1:
 			out = append(out, B(r.Remove(c03u32(a))))
 		case 2:
@@ -414,6 +446,32 @@ func c03Gen(c *Ctx) {
 		in = c03Pad(in)
 		t.Try("run-scripts", in, crossed)
 	})
+	// ---------- family 4: many buckets (the bucket map itself: a skip list growing and shrinking through its levels)
+	c.Each(c.N(1200, 20000), func(i int, t *T) {
+		r := t.R
+		nb := 18 + r.Intn(50)
+		hs := r.Perm(300)[:nb]
+		var in []int64
+		for _, h := range hs {
+			in = append(in, c03Op(0, int64(h)<<16|int64(r.Intn(3)))...)
+		}
+		for j, m := 0, r.Intn(12); j < m; j++ { // empty some buckets, create others
+			h := int64(hs[r.Intn(nb)])
+			for low := int64(0); low < 3; low++ {
+				in = append(in, c03Op(1, h<<16|low)...)
+			}
+			if r.Intn(2) == 0 {
+				in = append(in, c03Op(0, int64(300+r.Intn(65000))<<16|int64(r.Intn(3)))...)
+			}
+		}
+		in = append(in, c03Op(3)...)
+		in = append(in, c03Op(10)...)
+		in = append(in, c03Op(4)...)
+		if (len(in)/c03W)%2 != i%4/2 { // half of the cases run with the tall-tower source (odd number of operations)
+			in = append(in, c03Op(3)...)
+		}
+		t.Try("many-buckets", in, true)
+	})
 	c.Note("families: single-ops (short sequences, 1-3 buckets, boundary lows); exact-threshold (4095..4098 values in four orders, drained to one, emptied, re-created); run-scripts (random fill/drain/poke/observe phases over 1-3 buckets)")
 }
 
@@ -441,7 +499,7 @@ func c03Describe(in []int64) string {
 }
 
 func init() {
-	Register(&Prop{ID: "C03", Num: 3, SpecMode: "equal", Gen: c03Gen, Impl: c03Impl,
+	Register(&Prop{ID: "C03", Pure: true, Num: 3, SpecMode: "equal", Gen: c03Gen, Impl: c03Impl,
 		Shrink: ShrinkOps(0, c03W), Describe: c03Describe,
 		Rule: "operation sequences on a zero-value RoaringBitmap: (1) short random sequences of Add/Remove/Contains/Len/Iter/Range/All/Buckets over 1-3 buckets with boundary lows; (2) exact fills of 4095..4098 values in ascending, descending and permuted order, drained to one value, emptied, re-created; (3) random scripts of AddRun/RemoveRun/single ops/observations over 1-3 buckets so that buckets cross the 4096 threshold in both directions, become empty and are re-created. Every Add/Remove/Contains result, Len, the bucket count and the full Iter / Range / All sequences (with early stop) are compared with the model and with the set-of-N specification. distinct = distinct case; non-trivial = at least 3 operations of 2 kinds (1), always (2), some run of >= 4097 values into one bucket (3)"})
 }
